@@ -17,7 +17,8 @@ EXTENDS Naturals, Sequences, FiniteSets, TLC
 CONSTANTS Streams, MaxSent, MaxWrite, MaxMsg, MaxTotal, MaxClose, Bufs,
           Glitches,  \* subset of {"dataerr", "temperr", "shortwrite"}: glitches of the underlying connection
           Cuts,      \* subset of {"cuteof", "cutrst"}: the underlying connection is cut (ends with EOF / with an error)
-          CutPos     \* ... after that many more frames of the direction have arrived (0 = at once)
+          CutPos,    \* ... after that many more frames of the direction have arrived (0 = at once)
+          Delays     \* classes of (virtual) time that may pass between two operations
 
 Dirs == {"ab", "ba"}
 Chans == Streams \X Dirs
@@ -137,7 +138,14 @@ Cut(d, n, kind) ==
   /\ op' = [name |-> "cut", d |-> d, n |-> n, kind |-> kind, open |-> Cardinality(opened)]
   /\ UNCHANGED <<opened, sent, wire, rbuf, wfin, rfin, delivered, eof, loose, failed>>
 
-Next == \/ \E d \in Dirs, kind \in Glitches : Glitch(d, kind)
+\* TIME passes between two operations (keep-alive interval, write timeout, a minute, an hour ...): nothing changes
+Wait(c) ==
+  /\ opened # {} /\ ~dead
+  /\ op' = [name |-> "wait", c |-> c, halfclosed |-> (\E x \in Chans : wfin[x])]
+  /\ UNCHANGED View
+
+Next == \/ \E c \in Delays : Wait(c)
+        \/ \E d \in Dirs, kind \in Glitches : Glitch(d, kind)
         \/ \E d \in Dirs, n \in CutPos, kind \in Cuts : Cut(d, n, kind)
         \/ \E s \in Streams : Open(s)
         \/ \E s \in Streams, d \in Dirs, k \in 1..MaxWrite : Write(s, d, k)
